@@ -29,3 +29,7 @@ package pqmr
 //@   requires pqmr != nil
 //@   pure
 //@ end
+//@ func (*PQMatchResults).DoesRecordMatch
+//@   props C04
+//@   pure
+//@ end
